@@ -24,6 +24,7 @@ func checkC18(p *Prog, r *Report) {
 	}
 	ruleC18Unit(p, a, r)
 	ruleC18Round(p, a, r)
+	ruleC18FloatformatDigits(p, a, r)
 	ruleC18Base(p, a, r)
 	ruleResourceCaps(p, a, r, "R-C18-CAP")
 	ruleC18PadMeasure(p, a, r)
@@ -401,6 +402,128 @@ func ruleC18Round(p *Prog, a *Anchors, r *Report) {
 	}
 	if !found {
 		r.Unk("widthratio:rounding", p.Pos(f.Pos()), "no float→int conversion found")
+	}
+	// … and that conversion is the only way the printed number comes about: what the tag writes (or binds) is, on every
+	// path, a constant or the rounded ratio — not the result of an integer division (which truncates toward zero, so
+	// the "add half the divisor" idiom is off by one for every negative ratio)
+	var sinks []ssa.Value
+	for _, b := range f.Blocks {
+		for _, in := range b.Instrs {
+			switch x := in.(type) {
+			case *ssa.Call:
+				if cal := x.Common().StaticCallee(); cal != nil && p.extName(cal) == "fmt.Sprintf" && len(x.Common().Args) > 1 {
+					if vs, ok := variadicElems(x.Common().Args[1]); ok {
+						sinks = append(sinks, vs...)
+					}
+				}
+			case *ssa.MapUpdate:
+				sinks = append(sinks, x.Value)
+			}
+		}
+	}
+	for _, sv := range sinks {
+		bad := ""
+		seen := map[ssa.Value]bool{}
+		var walk func(v ssa.Value, d int)
+		walk = func(v ssa.Value, d int) {
+			if seen[v] || d > 8 || bad != "" {
+				return
+			}
+			seen[v] = true
+			switch x := v.(type) {
+			case *ssa.MakeInterface:
+				walk(x.X, d+1)
+			case *ssa.Phi:
+				for _, e := range x.Edges {
+					walk(e, d+1)
+				}
+			case *ssa.UnOp:
+				if lv := localLoadValue(x); lv != nil {
+					walk(lv, d+1)
+				}
+			case *ssa.BinOp:
+				if isIntType(x.Type()) && (x.Op == token.QUO || x.Op == token.REM) {
+					bad = p.InstrPos(x)
+				}
+			}
+		}
+		walk(sv, 0)
+		if bad != "" {
+			r.Bad("widthratio:every-path-rounds", bad, "on one path the number the tag writes is the result of an integer division: Go truncates toward zero, so (current*width + max/2)/max is off by one for every negative ratio (-30 40 100 gives -74)")
+		}
+	}
+	if len(sinks) > 0 {
+		r.OK("widthratio:sinks", p.Pos(f.Pos()), "%d value(s) written/bound examined for integer divisions", len(sinks))
+	}
+}
+
+// variadicElems: the values stored into the slice literal that a variadic call receives.
+func variadicElems(v ssa.Value) ([]ssa.Value, bool) {
+	sl, ok := v.(*ssa.Slice)
+	if !ok {
+		return nil, false
+	}
+	arr, ok := sl.X.(*ssa.Alloc)
+	if !ok {
+		return nil, false
+	}
+	var out []ssa.Value
+	for _, u := range refs(arr) {
+		if ia, isIA := u.(*ssa.IndexAddr); isIA {
+			for _, uu := range refs(ia) {
+				if st, isSt := uu.(*ssa.Store); isSt && st.Addr == ssa.Value(ia) {
+					out = append(out, st.Val)
+				}
+			}
+		}
+	}
+	return out, len(out) > 0
+}
+
+// ruleC18FloatformatDigits: floatformat prints the digits of the value it was given: what FormatFloat receives is the
+// input's Float() itself, not the result of arithmetic on it (a pre-rounding val*10^d/10^d changes digits of values
+// that need no rounding once val*10^d leaves the exactly representable range, and is NaN for d > 308).
+func ruleC18FloatformatDigits(p *Prog, a *Anchors, r *Report) {
+	f := a.FilterFuncs["floatformat"]
+	if f == nil {
+		r.Unk("floatformat:own-digits", "-", "anchor unresolved: filter floatformat")
+		return
+	}
+	n := 0
+	for _, fn := range clusterOf(p, f, 1) {
+		for _, b := range fn.Blocks {
+			for _, in := range b.Instrs {
+				c, ok := in.(*ssa.Call)
+				if !ok || c.Common().StaticCallee() == nil || p.extName(c.Common().StaticCallee()) != "strconv.FormatFloat" {
+					continue
+				}
+				n++
+				key := "floatformat:own-digits"
+				v := stripLoad(c.Common().Args[0])
+				ok2 := false
+				var why string
+				switch x := v.(type) {
+				case *ssa.Call:
+					if cal := x.Common().StaticCallee(); cal != nil && cal.Name() == "Float" && p.InPkg(cal) {
+						ok2 = true
+					} else {
+						why = "the result of " + p.calleeName(x.Common())
+					}
+				case *ssa.Parameter:
+					ok2 = true // a helper that is handed the value
+				default:
+					why = p.VN(v)
+				}
+				if ok2 {
+					r.OK(key, p.InstrPos(in), "FormatFloat receives the input's Float() itself")
+				} else {
+					r.Bad(key, p.InstrPos(in), "FormatFloat receives %s, not the input value itself: arithmetic in front of the formatting changes the digits of values that need no rounding (and turns huge arguments into NaN/Inf)", why)
+				}
+			}
+		}
+	}
+	if n == 0 {
+		r.Unk("floatformat:own-digits", p.Pos(f.Pos()), "no strconv.FormatFloat in floatformat")
 	}
 }
 
